@@ -650,6 +650,33 @@ def classify(worker, text):
     return None
 
 
+class Hang(Exception):
+    pass
+
+
+def bounded(fn, timeout, what):
+    """run fn() in a helper thread; a call that does not return within `timeout` seconds is reported as a hang
+    (the helper thread is abandoned: tear-down kills the peer, which unblocks it)"""
+    import threading
+
+    box = {}
+
+    def run():
+        try:
+            box["r"] = fn()
+        except BaseException as e:  # noqa: BLE001
+            box["e"] = e
+
+    t = threading.Thread(target=run, daemon=True)
+    t.start()
+    t.join(timeout)
+    if t.is_alive():
+        raise Hang("%s did not return within %d s" % (what, timeout))
+    if "e" in box:
+        raise box["e"]
+    return box["r"]
+
+
 def dynamic_check(ctx, res, only=None):
     """only = (worker name, program) re-runs one case"""
     execnet = ctx.execnet
@@ -693,9 +720,9 @@ def dynamic_check(ctx, res, only=None):
                     if port is None:
                         res.violations.append(dict(case=case0, what="stand-alone socketserver.py does not start on an interpreter without execnet: " + str(info)[-400:], finding=None))
                         continue
-                    gw = group.makegateway("socket=127.0.0.1:%d//id=%s" % (port, name))
+                    gw = bounded(lambda: group.makegateway("socket=127.0.0.1:%d//id=%s" % (port, name)), 30, "socket bootstrap on the stand-alone server")
                 else:
-                    gw = group.makegateway(cfg["spec"] + "//id=" + name)
+                    gw = bounded(lambda: group.makegateway(cfg["spec"] + "//id=" + name), 60, "bootstrap")
                 ch = gw.remote_exec(IMPORTABLE_SRC)
                 info = ch.receive(RECV_TIMEOUT)
             except BaseException as e:  # noqa: BLE001 - any failure to come up is the finding
@@ -712,6 +739,25 @@ def dynamic_check(ctx, res, only=None):
             if cfg.get("known"):
                 # the known-finding shape did not occur: nothing to report, the worker is simply used
                 pass
+            # the non-channel messages must work on a bare worker too: STATUS and RECONFIGURE
+            try:
+                st = bounded(lambda: gw.remote_status(), 20, "remote_status()")
+                ref_st = refs[cfg["ref"]].remote_status()
+                res.count(("status", name))
+                if sorted(vars(st)) != sorted(vars(ref_st)) or not isinstance(st.numchannels, int):
+                    res.violations.append(dict(case=case0, what="remote_status() of the source-bootstrapped worker differs from the import-bootstrapped one: %r vs %r" % (st, ref_st)))
+                gw.reconfigure(py2str_as_py3str=True, py3str_as_py2str=False)
+                chs = gw.remote_exec("channel.send(channel.receive() + 'x')")
+                chs.send("é")
+                if bounded(lambda: chs.receive(RECV_TIMEOUT), 20, "echo after reconfigure") != "éx":
+                    res.violations.append(dict(case=case0, what="echo after Gateway.reconfigure() wrong on the source-bootstrapped worker"))
+            except BaseException as e:  # noqa: BLE001
+                if isinstance(e, (KeyboardInterrupt, common.ToolFailure)):
+                    raise
+                res.violations.append(dict(case=case0, what="remote_status()/reconfigure on a worker bootstrapped from source alone failed: %s: %s" % (type(e).__name__, str(e)[-300:]),
+                                           finding=classify(name, str(e))))
+                res.stat("worker_failed_" + name)
+                continue
             for i, prog in enumerate(progs):
                 if prog["kind"] == "error" and not cfg.get("errors", True):
                     continue
@@ -734,11 +780,11 @@ def dynamic_check(ctx, res, only=None):
                 elif len(res.samples) < 6:
                     res.sample({"worker": name, "program": prog["kind"], "transcript": got[:3]})
     finally:
-        try:
-            group.terminate(timeout=3.0)
-        except Exception:  # noqa: BLE001
-            pass
         servers.stop()
+        try:
+            bounded(lambda: group.terminate(timeout=3.0), 40, "terminate")
+        except BaseException:  # noqa: BLE001
+            pass
         shutil.rmtree(scratch, ignore_errors=True)
 
 
